@@ -201,6 +201,17 @@ var c11shapes = []c11shape{
 		g.Wrap(g.Seq(c11task(g, "A0"), loop, c11task(g, "T9")))
 		return map[string]int{"c1": 0}
 	}},
+	// the refiring catch event INSIDE an embedded sub-process that is entered again in every round of the loop (what the
+	// sub-process keeps from one activation to the next must not keep events from its content)
+	{name: "subloop4", arm: 1, refire: true, evs: []c11ev{sigA, sigZ}, build: func(g *eng.Graph) map[string]int {
+		sub := g.SubBegin("")
+		n := g.Add("intermediateCatchEvent", "C1", sub.ID)
+		n.Defs = []eng.EventDef{{Kind: sigA.kind, Name: sigA.name}}
+		body := g.Seq(g.SubEnd(sub, eng.Frag{Entry: n, Exit: n}), g.Task("task", "L", "", "c1"))
+		loop := g.Loop("", body, &eng.Cond{Op: "lt", Var: "c1", K: 4})
+		g.Wrap(g.Seq(c11task(g, "A0"), loop, c11task(g, "T9")))
+		return map[string]int{"c1": 0}
+	}},
 	// plain multiple catch event: either definition fires it
 	{name: "multi", arm: 1, evs: []c11ev{sigA, msgB, sigZ}, build: func(g *eng.Graph) map[string]int {
 		g.Wrap(g.Seq(c11task(g, "T0"), c11catch(g, "C1", sigA, msgB), c11task(g, "T1")))
